@@ -1,5 +1,6 @@
 """C05 Crop state stays inside its configured envelope -- DESIGN 3/C05."""
 from .. import alphabets as A
+from .. import spec as S
 from ..driver import execute
 from ..monitors.crop import C05Envelope
 from ..runner import result_from_ctx
@@ -47,6 +48,29 @@ def scenarios(tier, seed=0):
     for name in sub:
         spec = A.catalogue_spec(name, soil="SandyLoam", word="warm", off=True, start="2001/04/20", end="2001/12/30")
         yield {"kind": "spec", "spec": spec, "label": ["offseason", name]}
+    # capacity-limited deficit irrigation (mild, sustained stress before and after flowering: both harvest-index multipliers active)
+    for name in (names if tier != "quick" else [n for n in names if n in ("Cotton", "CottonGDD", "Sorghum", "SorghumGDD", "Wheat", "Sunflower", "Soybean", "Quinoa", "DryBean", "Tomato")]):
+        for smt in (10, 20, 30):
+            for word in (("warm", "normal") if tier != "quick" else ("warm",)):
+                spec = A.catalogue_spec(name, soil="SandyLoam", word=word, iwc="FC")
+                spec["irr"] = {"method": 1, "kw": {"SMT": [smt] * 4, "MaxIrr": 5}}
+                yield {"kind": "spec", "spec": spec, "label": ["deficit", name, smt, word]}
+    # the recorded Tunis climate at full length (gradual drying of a real season: weeks between the stress thresholds, which the
+    # synthetic words do not produce): rainfed 1979-85 from two planting dates, and capacity-limited deficit irrigation
+    real = names if tier != "quick" else [n for n in names if n in ("Cotton", "CottonGDD", "Sorghum", "SorghumGDD", "Wheat", "Maize", "Sunflower", "Soybean", "Tomato", "Potato")]
+    for name in real:
+        for soil in ("Clay", "SandyLoam"):
+            for planting in ("04/15", "05/20"):
+                spec = S.base_spec(crop={"name": name, "planting": planting, "harvest": None, "scale": None, "kw": {}}, soil={"type": soil, "dz": None, "kw": {}},
+                                   start="1979/01/01", end="1985/12/31" if tier != "quick" else "1982/12/31", weather={"kind": "file", "name": "tunis_climate.txt"})
+                spec["iwc"] = S.iwc_for(spec["soil"], "FC")
+                yield {"kind": "spec", "spec": spec, "label": ["tunis-rainfed", name, soil, planting]}
+            for smt in ((10, 30) if tier == "quick" else (10, 20, 30)):
+                spec = S.base_spec(crop={"name": name, "planting": "04/15", "harvest": None, "scale": None, "kw": {}}, soil={"type": soil, "dz": None, "kw": {}},
+                                   start="1982/04/15", end="1982/12/31", weather={"kind": "file", "name": "tunis_climate.txt"})
+                spec["iwc"] = S.iwc_for(spec["soil"], "FC")
+                spec["irr"] = {"method": 1, "kw": {"SMT": [smt] * 4, "MaxIrr": 5}}
+                yield {"kind": "spec", "spec": spec, "label": ["tunis-deficit", name, soil, smt]}
     # fallow rows after a season that ended by crop DEATH (drought / cold), followed by a second season
     for name in sub:
         for kw in (dict(word="warm", frm=[25, "D"]), dict(word="warm", dev=[[d, "F"] for d in range(30, 50)])):
